@@ -20,7 +20,8 @@ pub struct MCase {
     pub state: usize,
 }
 
-const HOSTILE: &[&[u8]] = &[b"\r\n+OK\r\n", b"\r\n", b"\r\n$-1\r\n"];
+/// (the second one is not valid UTF-8: a seeded rewrite of the serializer's CR/LF scrubbing on top of `str` let such text through as it was)
+const HOSTILE: &[&[u8]] = &[b"\r\n+OK\r\n", b"\xff\r\n+OK\r\n:42", b"\r\n", b"\r\n$-1\r\n"];
 
 pub fn matrix_cases(thorough: bool) -> Vec<MCase> {
     let mut out = Vec::new();
@@ -55,7 +56,7 @@ pub fn matrix_cases(thorough: bool) -> Vec<MCase> {
             push(v, "nonnumeric".into(), all_states.clone());
         }
         // hostile content in every argument position (and in the command name position via an unknown command)
-        let kinds = if thorough { HOSTILE.len() } else { 1 };
+        let kinds = if thorough { HOSTILE.len() } else { 2 };
         for (hk, h) in HOSTILE.iter().take(kinds).enumerate() {
             for pos in 1..full.len() {
                 let mut v = full.clone();
@@ -68,6 +69,10 @@ pub fn matrix_cases(thorough: bool) -> Vec<MCase> {
         let mut name = b"NOSUCH".to_vec();
         name.extend_from_slice(h);
         out.push(MCase { cmd: vec![name, b"x".to_vec()], name: "(unknown)".into(), variant: format!("hostile{}-name", hk), state: 0 });
+        // scripts that hand request bytes back as the text of a status or error reply
+        for (si, script) in ["return {err=ARGV[1]}", "return {ok=ARGV[1]}", "return redis.error_reply(ARGV[1])", "return redis.status_reply(ARGV[1])", "error(ARGV[1])", "return redis.pcall('NOSUCH', ARGV[1])"].iter().enumerate() {
+            out.push(MCase { cmd: vec![b"EVAL".to_vec(), script.as_bytes().to_vec(), b"0".to_vec(), h.to_vec()], name: "EVAL".into(), variant: format!("hostile{}-script{}", hk, si), state: 0 });
+        }
     }
     // the same commands queued in a transaction: ECHO m1, MULTI, <cmd>, EXEC, ECHO m2 (EXEC runs them on another path;
     // a seeded change let a BLPOP inside EXEC block the client and tear the EXEC reply)
